@@ -57,10 +57,12 @@ def handle (s : S) (i : Nat) (j : Json) : S × List Json :=
           -- the curve; one unit of an asset changes the product by the product of the other reserves
           let touching := (st.endMoves ++ st.beginMoves ++ (st.txs.map (·.moves)).flatten).filter (fun m => m.src == addr || m.dst == addr)
           let perUnit := p.assets.foldl (fun acc a => max acc (weightedProduct (ws.filter (fun x => x.1 != a.1)) p.assets)) 0
-          -- the same on what the pool really HOLDS (bank balances of its address): a swap priced on a book that differs from the holdings
-          -- (a hop that ran on a stale copy of the pool) pays more than the curve through the real reserves allows
-          let heldB := po.assets.map (fun (d, _) => (d, pre.bank.get (addr, d)))
-          let heldA := p.assets.map (fun (d, _) => (d, st.obs.bank.get (addr, d)))
+          -- the same on what the pool really HAS of what it reports: per asset the smaller of the book reserve and the bank balance of the
+          -- pool's address (third parties may send coins straight to that address, so the balance alone says nothing; on a pool whose book is
+          -- backed the smaller one IS the book). A swap priced on a book that overstates a reserve (a hop that ran on a stale copy of the
+          -- pool) pays more than the curve through the reserves that are really there allows
+          let heldB := po.assets.map (fun (d, a) => (d, min a (pre.bank.get (addr, d))))
+          let heldA := p.assets.map (fun (d, a) => (d, min a (st.obs.bank.get (addr, d))))
           let hBefore := weightedProduct ws heldB
           let hAfter := weightedProduct ws heldA
           let perUnitH := heldA.foldl (fun acc a => max acc (weightedProduct (ws.filter (fun x => x.1 != a.1)) heldA)) 0
